@@ -1284,6 +1284,9 @@ def _callable(eng, st, args, kwargs, line):
 def _getattr(eng, st, args, kwargs, line):
     o, name = args[0], args[1]
     ns = z3.simplify(name.t)
+    if z3.is_string_value(ns) and o.ty.kind == 'opaque' and o.ty.args[0] == 'WS':
+        yield st, _getattr_opaque(eng, st, o, ns.as_string(), line)
+        return
     if z3.is_string_value(ns):
         yield from eng.getattr(st, o, ns.as_string(), line)
         return
@@ -1321,6 +1324,17 @@ def _hasattr(eng, st, args, kwargs, line):
         yield st, vbool(b)
         return
     raise core.EngineError('hasattr on %r' % (o.ty,))
+
+
+def _getattr_opaque(eng, st, o, attr, line):
+    return V(Opaque('DriverAttr'), z3.Int(eng.name('attr_' + attr)))
+
+
+def _noop_m(eng, st, recv, args, kwargs, line):
+    yield st, VNONE
+
+
+LIBM[('opaque:DriverAttr', 'settimeout')] = _noop_m
 
 
 @lib('max')
